@@ -168,6 +168,31 @@ func init() {
 			st.assume("(and (<= 0 " + r.term + ") (< " + r.term + " " + a[1].term + "))")
 			return r
 		},
+		"time.NewTimer": func(e *Enc, fr *frame, st *State, a []Value, p string, rt types.Type) Value {
+			r := e.freshValue(st, p, rt)
+			st.assume("(not (= " + r.term + " 0))")
+			return r
+		},
+		"time.NewTicker": func(e *Enc, fr *frame, st *State, a []Value, p string, rt types.Type) Value {
+			r := e.freshValue(st, p, rt)
+			st.assume("(not (= " + r.term + " 0))")
+			return r
+		},
+		// bytes.Equal(a, b): same length and same bytes
+		"bytes.Equal": func(e *Enc, fr *frame, st *State, a []Value, p string, rt types.Type) Value {
+			ek := e.elemKey(types.Typ[types.Uint8])
+			i := e.q.freshBound("i")
+			r := e.q.fresh(p, sortBool)
+			h := st.get(ek)
+			st.assume(fmt.Sprintf("(= %[1]s (and (= (s_len %[2]s) (s_len %[3]s)) (forall ((%[4]s Int)) (=> (and (<= 0 %[4]s) (< %[4]s (s_len %[2]s))) (= (select (select %[5]s (s_arr %[2]s)) %[6]s) (select (select %[5]s (s_arr %[3]s)) %[7]s))))))",
+				r, a[0].term, a[1].term, i, h, e.q.idxOf(a[0].term, i), e.q.idxOf(a[1].term, i)))
+			return Value{term: r, typ: boolT}
+		},
+		"math/rand.New": func(e *Enc, fr *frame, st *State, a []Value, p string, rt types.Type) Value {
+			r := e.freshValue(st, p, rt)
+			st.assume("(not (= " + r.term + " 0))")
+			return r
+		},
 		"fmt.Errorf": func(e *Enc, fr *frame, st *State, a []Value, p string, rt types.Type) Value {
 			r := e.freshValue(st, p, rt)
 			st.assume("(not (= (itag " + r.term + ") 0))")
